@@ -67,7 +67,6 @@ int @p@gemv_(char *trans, int *m, int *n, @T@ *alpha, @T@ *A, int *lda, @T@ *x, 
 int_t nondet_int_t(void);
 #define REQ(label, c) __CPROVER_assume(c)
 #define ENS(label, c) __CPROVER_assert(c, "ensures " #label)
-#undef DENSE0
 /* BOUNDED unit (label B(n)): no contract is enforced (a loop contract would havoc the cursor pointers dense_col/TriTmp/repfnz_col, after
  * which symex splits every access over all assignable objects: 70M clauses, out of memory; DFCC: out of memory as well).  The real
  * routine is executed symbolically with all loops unwound (--unwinding-assertions), for every geometry within the capacities.
